@@ -151,14 +151,25 @@ func tinyCheck(id schema.ID, member, text string) (d Tiny, ok bool) {
 	if err != nil || !bytes.Contains(b, []byte(`"`+member+`":`)) {
 		return d, false
 	}
-	// the document as the library writes it is the text every later step starts from
+	// the document as the library writes it is the text every later step starts from; only a text
+	// that reads back to itself is kept (what loading does to other spellings is not C15's matter)
+	again := new(schema.Object)
+	if err := json.Unmarshal(b, again); err != nil {
+		return d, false
+	}
+	if b2, err := json.Marshal(again); err != nil || !bytes.Equal(b, b2) {
+		return d, false
+	}
 	d = Tiny{Schema: id.String(), Member: member, Text: string(b)}
 	if env, err := gobl.Envelop(obj.Instance()); err == nil {
 		if eb, err := json.Marshal(env); err == nil {
 			// only envelopes that read back and calculate to the same text (no fresh identifiers)
 			e2 := new(gobl.Envelope)
-			if json.Unmarshal(eb, e2) == nil && e2.Calculate() == nil {
-				if eb2, err := json.Marshal(e2); err == nil && bytes.Equal(eb, eb2) {
+			e3 := new(gobl.Envelope)
+			if json.Unmarshal(eb, e2) == nil && e2.Calculate() == nil && json.Unmarshal(eb, e3) == nil {
+				eb2, err2 := json.Marshal(e2)
+				eb3, err3 := json.Marshal(e3)
+				if err2 == nil && err3 == nil && bytes.Equal(eb, eb2) && bytes.Equal(eb, eb3) {
 					d.Env = string(eb)
 				}
 			}
